@@ -10,9 +10,14 @@ are exact on the generated domain; the harness checks that before comparing).
 The model mirrors the *repaired* code (fixes/C13-1: the velocity column is permuted
 together with pitch, onset and duration by the onset sort).
 
+Every constant of the source (time units, unit inference table, auto `time_div`, drum channel,
+default pitch range, piano-range slice, decoder shapes, pitch-class fold) comes from the
+generated `Gen/C13Tables.lean` (harness/translate_c13.py); `C13.tables_spec` pins their values.
+
 Lean core only (no Mathlib): the driver links as a plain executable.
 -/
 import PartituraModel.Model.Basic
+import PartituraModel.Gen.C13Tables
 
 namespace Model.PianoRoll
 open Model
@@ -26,13 +31,14 @@ structure Note where
   vel : Int
 deriving DecidableEq, Repr
 
-/-- keyword arguments of `_make_pianoroll` (`time_div` already an `int`) -/
+/-- keyword arguments of `_make_pianoroll` (`time_div` already an `int`; `time_margin` any number:
+    the code never converts it) -/
 structure Opts where
   timeDiv : Int
   onsetOnly : Bool
   noteSep : Bool
   pitchMargin : Int
-  timeMargin : Int
+  timeMargin : Rat
   pianoRange : Bool
   removeSilence : Bool
   endTime : Option Rat
@@ -83,8 +89,14 @@ def sortedNotes (notes : List Note) : List Note := (sorted notes).map (·.2)
 
 -- ------------------------------------------------------------------ frames of one note
 
-/-- `int(time_margin * time_div)` -/
-def marginFrames (o : Opts) : Int := o.timeMargin * o.timeDiv
+/-- Python `int(x)` of a number: truncation toward zero -/
+def truncRat (q : Rat) : Int := if 0 ≤ q then q.floor else q.ceil
+
+/-- `int(time_margin * time_div)`: the leading margin in frames -/
+def marginFrames (o : Opts) : Int := truncRat (o.timeMargin * (o.timeDiv : Rat))
+
+/-- `time_div * time_margin`: the trailing margin (not truncated: the column count is rounded up) -/
+def trailMargin (o : Opts) : Rat := (o.timeDiv : Rat) * o.timeMargin
 
 /-- `pr_onset = np.round(time_div * (onset - min_time)).astype(int) + int(time_margin * time_div)` -/
 def onFrame (o : Opts) (t0 : Rat) (n : Note) : Int :=
@@ -118,10 +130,10 @@ def rowOf (o : Opts) (lowest : Int) (n : Note) : Int :=
 -- ------------------------------------------------------------------ whole-array quantities
 
 def lowestOf (o : Opts) (notes : List Note) : Int :=
-  if o.pitchMargin > -1 then (minInt? (notes.map (·.pitch))).getD 0 else 0
+  if o.pitchMargin > -1 then (minInt? (notes.map (·.pitch))).getD 0 else Gen.C13_LOWEST_PITCH
 
 def highestOf (o : Opts) (notes : List Note) : Int :=
-  if o.pitchMargin > -1 then (maxInt? (notes.map (·.pitch))).getD 0 else 127
+  if o.pitchMargin > -1 then (maxInt? (notes.map (·.pitch))).getD 0 else Gen.C13_HIGHEST_PITCH
 
 /-- `M`: rows of the roll before the piano-range slice -/
 def rowsFull (o : Opts) (notes : List Note) : Int :=
@@ -143,11 +155,11 @@ def maxOffOf (o : Opts) (notes : List Note) : Int :=
 /-- `N`; `none` = "`end_time` must be higher or equal than the last note offset time" -/
 def colsOf (o : Opts) (notes : List Note) : Option Int :=
   match o.endTime with
-  | none => some (o.timeDiv * o.timeMargin + maxOffOf o notes)
+  | none => some (Rat.ceil (trailMargin o + (maxOffOf o notes : Rat)))
   | some e =>
     let e' := e - t0Of o notes
     if e' * (o.timeDiv : Rat) < (maxOffOf o notes : Rat) then none
-    else some (Rat.ceil (((o.timeDiv * o.timeMargin : Int) : Rat) + (o.timeDiv : Rat) * e'))
+    else some (Rat.ceil (trailMargin o + (o.timeDiv : Rat) * e'))
 
 abbrev Entry := Int × Int × Int
 
@@ -170,12 +182,20 @@ def keyMax (fill : List Entry) (p j : Int) : Option Int :=
 def idxRow (o : Opts) (lowest : Int) (t0 : Rat) (start : Int) (n : Note) : Int × Int × Int × Int :=
   (rowOf o lowest n - start, onFrame o t0 n, offIdx o t0 n, n.pitch)
 
-def rowStartOf (o : Opts) : Int := if o.pianoRange then 21 else 0
+/-- first row kept by the `piano_range` slice `pianoroll[lo:hi, :]` -/
+def rowStartOf (o : Opts) : Int := if o.pianoRange then Gen.C13_PIANO_LO else 0
+
+/-- `pr_idx_pitch_start`: what the index rows subtract from the vertical position -/
+def idxStartOf (o : Opts) : Int := if o.pianoRange then Gen.C13_IDX_START_PIANO else Gen.C13_IDX_START
+
+/-- rows left by the slice `[lo:hi]` of a roll with `M ≥ 0` rows -/
+def slicedRows (M : Int) : Int :=
+  (if M < Gen.C13_PIANO_HI then M else Gen.C13_PIANO_HI) - (if M < Gen.C13_PIANO_LO then M else Gen.C13_PIANO_LO)
 
 /-- `pr_idx[idx.argsort()]` -/
 def idxOf (o : Opts) (notes : List Note) : List (Int × Int × Int × Int) :=
   unsort ((sorted notes).map fun x =>
-    (x.1, idxRow o (lowestOf o notes) (t0Of o notes) (rowStartOf o) x.2))
+    (x.1, idxRow o (lowestOf o notes) (t0Of o notes) (idxStartOf o) x.2))
 
 /-- the sparse matrix (as the deduplicated-by-max triplets it is built from), its shape
     after the optional `[21:109, :]` slice, and the index rows -/
@@ -204,7 +224,7 @@ def makePianoroll (o : Opts) (notes : List Note) : Option Roll :=
       let fill := fillOf o notes
       if fill.all (inBounds M N) then
         some {
-          rows := if o.pianoRange then (if M < 109 then M else 109) - (if M < 21 then M else 21) else M
+          rows := if o.pianoRange then slicedRows M else M
           cols := N
           rowStart := rowStartOf o
           binary := o.binary
@@ -222,25 +242,17 @@ def Roll.cell (r : Roll) (p j : Int) : Int :=
 
 -- ------------------------------------------------------------------ compute_pianoroll
 
-/-- `TIME_UNITS` of utils/globals.py -/
-def TIME_UNITS : List String := ["beat", "quarter", "sec", "div", "tick"]
+/-- `TIME_UNITS` of utils/globals.py (generated) -/
+abbrev TIME_UNITS : List String := Gen.C13_TIME_UNITS
 
-/-- `get_time_units_from_note_array` on the set of units that have `onset_<u>` columns;
+/-- `get_time_units_from_note_array` on the set of units that have `onset_<u>` columns: the generated
+    table of the function on every subset of `TIME_UNITS` (fields of other names do not matter);
     `none` = ValueError -/
 def timeUnitsAuto (units : List String) : Option String :=
-  if units.contains "beat" || units.contains "quarter" || units.contains "div" then
-    if units.contains "beat" then some "beat"
-    else if units.contains "quarter" then some "quarter"
-    else some "div"
-  else if units.contains "sec" || units.contains "tick" then
-    if units.contains "sec" then some "sec" else some "tick"
-  else none
+  (lookup (TIME_UNITS.filter (fun u => units.contains u)) Gen.C13_AUTO_UNITS).join
 
-/-- `time_div == "auto"` -/
-def autoTimeDiv (unit : String) : Option Int :=
-  if unit = "beat" ∨ unit = "quarter" ∨ unit = "sec" then some 8
-  else if unit = "div" ∨ unit = "tick" then some 1
-  else none
+/-- `time_div == "auto"`: the generated per-unit default; `none` = the call fails -/
+def autoTimeDiv (unit : String) : Option Int := (lookup unit Gen.C13_AUTO_DIV).join
 
 structure Row where
   pitch : Int
@@ -294,7 +306,7 @@ def prepare (a : NoteArray) (g : Args) : Option (Opts × List Note) :=
       match td? with
       | none => none
       | some td =>
-        let rows := if a.hasChan && g.removeDrums then a.rows.filter (fun r => r.chan != some 9) else a.rows
+        let rows := if a.hasChan && g.removeDrums then a.rows.filter (fun r => r.chan != some Gen.C13_DRUM_CHANNEL) else a.rows
         match indexOf unit a.units with
         | none => none
         | some k =>
@@ -309,9 +321,12 @@ def computePianoroll (a : NoteArray) (g : Args) : Option Roll :=
 
 -- ------------------------------------------------------------------ pitch-class roll
 
+/-- `int(np.ceil(128 / 12))`: number of slices folded -/
+def pcSlices : Nat := (Gen.C13_PC_SPAN + Gen.C13_PC_STEP - 1) / Gen.C13_PC_STEP
+
 /-- `sum_i pianoroll[12 i + c, j]` for `i < ceil(128 / 12) = 11` (rows ≥ 128 do not exist: cell = 0) -/
 def pcCell (r : Roll) (c j : Int) : Int :=
-  (List.range 11).foldr (fun (i : Nat) s => r.cell (12 * (i : Int) + c) j + s) 0
+  (List.range pcSlices).foldr (fun (i : Nat) s => r.cell ((Gen.C13_PC_STEP : Int) * (i : Int) + c) j + s) 0
 
 /-- after the optional `pc_pianoroll[pc_pianoroll > 0] = 1` -/
 def pcValue (r : Roll) (binary : Bool) (c j : Int) : Int :=
@@ -320,7 +335,7 @@ def pcValue (r : Roll) (binary : Bool) (c j : Int) : Int :=
 
 /-- `pc_pianoroll.sum(0)[j]` -/
 def pcColSum (r : Roll) (binary : Bool) (j : Int) : Int :=
-  (List.range 12).foldr (fun (c : Nat) s => pcValue r binary (c : Int) j + s) 0
+  (List.range Gen.C13_PC_ROWS).foldr (fun (c : Nat) s => pcValue r binary (c : Int) j + s) 0
 
 /-- the returned value of cell `(c, j)` -/
 def pcOut (r : Roll) (binary normalize : Bool) (c j : Int) : Rat :=
@@ -331,18 +346,10 @@ def pcOut (r : Roll) (binary normalize : Bool) (c j : Int) : Rat :=
 
 /-- column `j` of the returned array, computed as the code does (fold, binarise, one sum, one division per entry) -/
 def pcColumn (r : Roll) (binary normalize : Bool) (j : Int) : List Rat :=
-  let vals := (List.range 12).map fun (c : Nat) => pcValue r binary (c : Int) j
+  let vals := (List.range Gen.C13_PC_ROWS).map fun (c : Nat) => pcValue r binary (c : Int) j
   let s := vals.foldr (fun v acc => v + acc) 0
   if normalize then vals.map fun (v : Int) => (v : Rat) / ((if s = 0 then 1 else s : Int) : Rat)
   else vals.map fun (v : Int) => (v : Rat)
-
-/-- `compute_pitch_class_pianoroll`: the full roll it is folded from (always 128 rows, no
-    piano range, not binary, drums removed) with the index rows' first column taken mod 12 -/
-def computePcBase (a : NoteArray) (g : Args) : Option Roll :=
-  match computePianoroll a { g with removeDrums := true,
-                                    opts := { g.opts with pitchMargin := -1, pianoRange := false, binary := false } } with
-  | none => none
-  | some r => some { r with idx := r.idx.map fun (p, on, off, mp) => (p % 12, on, off, mp) }
 
 -- ------------------------------------------------------------------ pianoroll_to_notearray
 
@@ -404,14 +411,19 @@ def decodeRuns (cols : List (List Int)) : List Run :=
 /-- a decoded note `(pitch, onset, duration, velocity)` -/
 abbrev OutNote := Int × Rat × Rat × Int
 
-/-- `pianoroll_to_notearray`: `rows` is `pianoroll.shape[0]`; `none` = ValueError (bad shape) -/
-def decode (rows : Nat) (cols : List (List Int)) (timeDiv : Int) : Option (List OutNote) :=
-  let init? : Option Int := if rows = 128 then some 0 else if rows = 88 then some 21 else none
+/-- `pianoroll_to_notearray`: `rows` is `pianoroll.shape[0]`, `timeDiv` any number (the code divides by it
+    as given); `none` = ValueError (bad shape) or ZeroDivisionError (`time_div = 0` and at least one note) -/
+def decode (rows : Nat) (cols : List (List Int)) (timeDiv : Rat) : Option (List OutNote) :=
+  let init? : Option Int :=
+    if rows = Gen.C13_DEC_ROWS_FULL then some Gen.C13_DEC_INIT_FULL
+    else if rows = Gen.C13_DEC_ROWS_PIANO then some Gen.C13_DEC_INIT_PIANO else none
   match init? with
   | none => none
   | some init =>
-    some ((decodeRuns cols).map fun r =>
-      ((r.pitch : Int) + init, (r.on : Rat) / (timeDiv : Rat), ((r.off - r.on : Nat) : Rat) / (timeDiv : Rat), r.vel))
+    if timeDiv = 0 ∧ decodeRuns cols ≠ [] then none
+    else
+      some ((decodeRuns cols).map fun r =>
+        ((r.pitch : Int) + init, (r.on : Rat) / timeDiv, ((r.off - r.on : Nat) : Rat) / timeDiv, r.vel))
 
 /-- `pianoroll.toarray()` as a list of columns -/
 def Roll.toCols (r : Roll) : List (List Int) :=
